@@ -207,6 +207,11 @@ func init() {
 				c.Cfg.CapFrames, c.Cfg.Latency = 0, 0
 				c.P = map[string]int{"gated": 1, "maxrpcs": 8, "maxsize": 140000, "budget": 1 << 20}
 			}
+			if i%3 == 1 {
+				// a carrier that encodes a frame when it is delivered, not inside Send (in-process
+				// channels do that): a frame must not change once it has been handed to the carrier
+				c.Cfg.ByRef = true
+			}
 			out = append(out, c)
 		}
 		// multi-megabyte messages (up to 8 MiB + 1)
